@@ -321,3 +321,16 @@ Print Assumptions C08_block_count_partial.
    generated programs (blocks in sequence, nested to depth 3, counts 0..6 from literals and EQU expressions, counters
    in inner and outer operand expressions, block labels) and their extracted unrollings are assembled by gmars and by
    the extracted model and compared with each other and with the extracted meaning. *)
+
+(* D35: a block with a count below one sends exactly the labels written in front of its counter - they fall onto what
+   follows the block - whatever its body holds, an empty body included *)
+Theorem C08_zero_count_sends_its_labels_partial :
+  forall at_ cl ll body, ForExpand.emit_body 0 at_ cl ll body = map (mkT tokText) ll.
+Proof. reflexivity. Qed.
+Print Assumptions C08_zero_count_sends_its_labels_partial.
+Example empty_zero_count_block_first :
+  compile_warrior (mkCfg 2 8000 8000 80000 8000 8000 100 100)
+    (s2t "a i for 2" ++ [10%N] ++ s2t "j for 0" ++ [10%N] ++ s2t "rof" ++ [10%N] ++ s2t "dat i" ++ [10%N] ++ s2t "rof" ++ [10%N] ++ s2t "jmp a" ++ [10%N])
+  = compile_warrior (mkCfg 2 8000 8000 80000 8000 8000 100 100)
+    (s2t "a dat 1" ++ [10%N] ++ s2t "dat 2" ++ [10%N] ++ s2t "jmp a" ++ [10%N]).
+Proof. vm_compute. reflexivity. Qed.
